@@ -83,6 +83,7 @@ def define():
         t = h.Param(dtype=tuple, desc="factory-made default", default_factory=tuple)
         u = h.Param(dtype=P1, desc="factory-made param-class default", default_factory=P1)
         n = h.Param(dtype=int, desc="n", default=0)
+        fs = h.Param(dtype=frozenset, desc="set-valued", default=frozenset())
 
     gens = {}
 
@@ -185,6 +186,8 @@ def calls(value_seed: int, n: int):
                 kw["t"] = r.choice([[], [1], [1, 2], [2, 1], ["1"]])
             if r.random() < 0.7:
                 kw["u"] = {"a": r.choice([0, 1, 2]), "b": r.choice(["", "x"])}
+            if r.random() < 0.6:
+                kw["fs"] = r.choice([[], ["abc", "def", "ghi", "jkl"], ["jkl", "ghi", "abc", "def"], ["abc"], [1, 2, 3], ["1", "2", "3"], [3, 1, 2]])
         else:
             kw = {"depth": r.choice([0, 1, 2, 3])}
         out.append((g, form, kw))
@@ -228,6 +231,8 @@ def realise(gens, P, g, kw):
             kw["t"] = tuple(kw["t"])
         if "u" in kw:
             kw["u"] = P["P1"](**kw["u"])
+        if "fs" in kw:
+            kw["fs"] = frozenset(kw["fs"])
     if g == "G7" and kw["g"] is not None:
         kw["g"] = gens[kw["g"]]
     return kw
